@@ -65,7 +65,21 @@ def parse_line(line):
         r["early"] = d["early"] == "1"
         return r
     r.update({"d": int(d["d"]), "v": int(d["v"]), "mode": d["mode"], "dseed": int(d["dseed"]),
-              "oau": int(d.get("oau", "0")), "oac": int(d.get("oac", "0"))})
+              "oau": int(d.get("oau", "0")), "oac": int(d.get("oac", "0")), "ops": d.get("ops", "")})
+
+    def op_results(x):
+        out = []
+        for o in x.split("/") if x else []:
+            groups = {}
+            if o != "-":
+                for sc in o.split("|"):
+                    if sc:
+                        sid, recs = parse_scene_res(sc)
+                        groups[sid] = recs
+            out.append(groups)
+        return out
+    r["bops"] = op_results(d.get("bops", ""))
+    r["sops"] = op_results(d.get("sops", ""))
     r["batch"] = [[parse_scene_res(sc) for sc in b.split("|") if sc] for b in d["batch"].split("/")] if d["batch"] else []
     simple = {}
     if d["simple"] and d["simple"] != "PANIC":
@@ -82,8 +96,8 @@ def parse_line(line):
 def case_text(r):
     if r["type"] == "probe":
         return "kind=%s site=%s hist=%s" % (r["kind"], r["site"], enc_hist(r["hist"]))
-    return "kind=%s d=%d v=%d mode=%s dseed=%d oau=%d oac=%d hist=%s" % (
-        r["kind"], r["d"], r["v"], r["mode"], r["dseed"], r["oau"], r["oac"], enc_hist(r["hist"]))
+    return "kind=%s d=%d v=%d mode=%s dseed=%d oau=%d oac=%d ops=%s hist=%s" % (
+        r["kind"], r["d"], r["v"], r["mode"], r["dseed"], r["oau"], r["oac"], r["ops"], enc_hist(r["hist"]))
 
 
 # ---------------------------------------------------------------------------------------------------------
@@ -127,6 +141,7 @@ def oracle(r):
                     return bad
     # per-scene refinement up to renaming of ids
     owner = {}
+    maps = {}
     for sid in sorted(set(s for b in hist for s, _ in b)):
         seq_batch = [dict(res)[sid] for b, res in zip(hist, r["batch"]) if sid in dict(b)]
         seq_simple = r["simple"].get(sid, [])
@@ -134,6 +149,7 @@ def oracle(r):
             bad.append(("C06:refinement", "scene %d: %d calls vs %d" % (sid, len(seq_batch), len(seq_simple))))
             continue
         fwd, bwd = {}, {}
+        maps[sid] = fwd
         for ci, (cb, cs) in enumerate(zip(seq_batch, seq_simple)):
             if len(cb) != len(cs):
                 bad.append(("C06:refinement", "scene %d call %d: %d records vs %d" % (sid, ci, len(cb), len(cs))))
@@ -157,6 +173,29 @@ def oracle(r):
                     stop = True
                     break
             if stop:
+                break
+    # lifecycle calls (wasted / idle_tracks_with_scene hand out tracks): the same tracks per scene, up to the id renaming
+    if not bad and (r["bops"] or r["sops"]):
+        names = [o.split(":", 1)[1] for o in r["ops"].split(";") if o]
+        if len(r["bops"]) != len(r["sops"]):
+            bad.append(("C06:lifecycle", "lifecycle calls answered: batch %d, simple %d" % (len(r["bops"]), len(r["sops"]))))
+        for oi, (gb, gs) in enumerate(zip(r["bops"], r["sops"])):
+            name = names[oi] if oi < len(names) else "?"
+            for sid in sorted(set(gb) | set(gs)):
+                fwd = maps.get(sid, {})
+                rb = dict((fwd.get(x["id"], ("unknown", x["id"])), x) for x in gb.get(sid, []))
+                rs = dict((x["id"], x) for x in gs.get(sid, []))
+                if set(rb) != set(rs):
+                    bad.append(("C06:lifecycle", "call %d (%s), scene %d: the batch tracker hands out tracks %s (simple-tracker names), the simple tracker %s"
+                                % (oi, name, sid, sorted(rb, key=str), sorted(rs))))
+                    break
+                for k in rs:
+                    for f in ("epoch", "len", "custom", "scene", "obs", "pred"):
+                        if rb[k][f] != rs[k][f]:
+                            bad.append(("C06:lifecycle", "call %d (%s), scene %d track %s: %s differs (batch %s, simple %s)"
+                                        % (oi, name, sid, k, f, rb[k][f], rs[k][f])))
+                            break
+            if bad:
                 break
     return bad
 
@@ -402,6 +441,9 @@ def run(chk):
             hist["%s d=%d v=%d" % (r["kind"], r["d"], r["v"])] += 1
             hist["mode=" + r["mode"]] += 1
             hist["batches=%d" % len(r["hist"])] += 1
+            for o in r["ops"].split(";"):
+                if o:
+                    hist["lifecycle:" + o.split(":", 1)[1].split(".")[0]] += 1
             if r["kind"] == "visual":
                 hist["own_area use=%s collect=%s" % ("on" if r["oau"] else "off", "on" if r["oac"] else "off")] += 1
             if any(len(b) >= 2 for b in r["hist"]) and r["v"] >= 2 and nonserial(r):
@@ -461,7 +503,7 @@ def run(chk):
             seen.add(key)
             r = runs[i]
             small = r
-            if r["type"] == "run" and key in ("C06:refinement", "C06:one-result-per-scene", "C06:one-record-per-detection", "C06:record-order"):
+            if r["type"] == "run" and not r["ops"] and key in ("C06:refinement", "C06:one-result-per-scene", "C06:one-record-per-detection", "C06:record-order"):
                 try:
                     small = shrink(r, key)
                 except Exception:
